@@ -219,9 +219,9 @@ def _is_permutation(f: FuncInfo, c: ast.Call) -> str:
 
 
 def run(ctx: RuleContext, p: Program) -> None:
-    rule_pure(ctx, p, 'PURE')
-    rule_store_read_pure(ctx, p, 'STORE-READ-PURE')
-    rule_claim_perm(ctx, p, 'CLAIM-PERM')
+    ctx.try_rule(rule_pure, p, 'PURE')
+    ctx.try_rule(rule_store_read_pure, p, 'STORE-READ-PURE')
+    ctx.try_rule(rule_claim_perm, p, 'CLAIM-PERM')
     ctx.not_decided += ['which placeholders sit next to a comment (the neighbourhood argument)', 'relative order of non-placeholder '
                         'tokens in _claim_comment\'s explicit list (read off by the reviewer: newline, comment kept in walk order)']
     ctx.assumptions += ['primitive models of the effect interpreter (see C19)', '_take_ignored only appends Placeholder tokens it walks over '
